@@ -30,6 +30,13 @@ def tails():
 
 
 def work(hi, tier, seed):
+    # every second unit is computed in a fresh non-main thread: a score must not depend on thread-local state
+    if hi % 2:
+        return runner.in_thread(_work, hi, tier, seed)
+    return _work(hi, tier, seed)
+
+
+def _work(hi, tier, seed):
     import cvss
     CVSS4 = cvss.CVSS4
     part = runner.Part(PID)
